@@ -1,10 +1,16 @@
 (* C02 -- making a legal move yields exactly the rules-defined successor position.
    Proved for every position and every move that is made: side to move, half-move clock (with its u8 wrap written out),
    full-move number (u16 wrap written out), castling rights mask and en-passant target are exactly as the rules prescribe.
-   Placement and the redundant sets (C02_full) are decided per run: the extracted monitor mon_make compares every successor
+   Proved for every consistent position and every generated move that does not capture a king: the successor is consistent again
+   (C02_consistency: twelve pairwise disjoint piece sets, the three occupancy sets are their unions, a castling right still has its
+   king and rook at home, an en-passant square is empty with the pawn in front of it) -- make_search_move acts as a sequence of
+   "take a man that is there / put a man on an empty square" operations (Proofs/ConsProofs.v), and every generated move is
+   well-formed for it (Proofs/GenOk.v).  `nkc` (no king capture) is decidable; no generated move violates it when the side not to
+   move is not in check; the judge evaluates it on every move the engine generates.
+   Placement w.r.t. the rules (C02_full) is decided per run: the extracted monitor mon_make compares every successor
    the engine produces with Spec.apply and checks occupancy = unions / disjointness / one king each. *)
 From Coq Require Import NArith List Bool.
-From JV Require Import Gen.Consts Model.Bits Model.Chess Model.Abs Proofs.MakeProofs.
+From JV Require Import Gen.Consts Model.Bits Model.Chess Model.Abs Proofs.MakeProofs Proofs.GenProofs Proofs.ConsProofs Proofs.GenOk Proofs.KingsProofs Proofs.MakeGen.
 Local Open Scope N_scope.
 
 Theorem C02_scalars : forall g m g', make_search_move g m = Made g' ->
@@ -15,7 +21,27 @@ Theorem C02_scalars : forall g m g', make_search_move g m = Made g' ->
   ep g' = (if mdp m then (if white g then mto m + 8 else mto m - 8) else NOSQ).
 Proof. exact make_scalars. Qed.
 
+Theorem C02_consistency : forall g all m g', cons g -> In m (generate_moves g all) -> nkc g m ->
+  make_search_move g m = Made g' -> cons g'.
+Proof. exact make_cons_generated. Qed.
+
+Theorem C02_consistency_pass : forall g, cons g -> cons (null_move g).
+Proof. exact null_move_cons. Qed.
+
+(* each side keeps exactly one king *)
+Theorem C02_one_king_each : forall g all m g', cons g -> kings g -> In m (generate_moves g all) -> nkc g m ->
+  make_search_move g m = Made g' -> kings g'.
+Proof. exact make_kings_generated. Qed.
+
+(* every generated move is well-formed for make_search_move *)
+Theorem C02_generated_moves_well_formed : forall g all m, cons g -> In m (generate_moves g all) -> nkc g m -> move_ok g m.
+Proof. intros g all m C H NK. exact (generated_moves_ok g C all m H NK). Qed.
+
 Definition C02_full : Prop := forall g m g', wf g = true -> (half g < 255) -> (full g < 65535) ->
   In m (legal_moves g) -> make_search_move g m = Made g' -> mon_make g m g' = true /\ wf g' = true.
 
 Print Assumptions C02_scalars.
+Print Assumptions C02_consistency.
+Print Assumptions C02_consistency_pass.
+Print Assumptions C02_one_king_each.
+Print Assumptions C02_generated_moves_well_formed.
